@@ -95,6 +95,10 @@ fn init_states(r: &dyn Runner, prop: Prop, tier: Tier, cmax: usize) -> Vec<McSta
         let t = (128 + r.elem_size() - 1) / r.elem_size();
         let mut lens = vec![t - 1, t, t + 1, t + t / 2];
         if tier == Tier::Quick { lens = vec![t, t + 1]; }
+        // big states: lengths around powers of two up to 200 elements (block sizes up to 8 KB for the 40-byte layout), where a
+        // "large vector" fast path or a chunked copy would switch on; same reduced alphabet (`edges::wide_edges`)
+        let big: &[usize] = if tier == Tier::Quick { &[32, 33, 65, 129, 200] } else { &[31, 32, 33, 63, 64, 65, 127, 128, 129, 200] };
+        for &l in big { if !lens.contains(&l) { lens.push(l); } }
         for l in lens { if l > 3 && l < 230 { for extra in [0usize, 2] { v.push(McState { len: l as u16, cap: (l + extra) as u16, spare: Spare::Pristine, bad: None }); } } }
     }
     v
